@@ -191,6 +191,27 @@ theorem windows_chain (width mlw : Nat) (h : 0 < mlw) :
     Nat.le_trans (Nat.le_mul_of_pos_right width hstep) (Nat.le_add_left ..)
   exact windowsAux_spec width mlw h width 0 mlw (by omega) hw
 
+/-! ### Regrouping of the window results in `process_lines` (transformer mode) -/
+
+/-- The spans cut the batch's window results into consecutive groups: nothing is lost, duplicated or reordered … -/
+theorem regroup_flatten {γ : Type} (spans : List Nat) (xs : List γ) (h : spans.sum = xs.length) :
+    (regroup spans xs).flatten = xs :=
+  Merge.regroup_flatten' spans xs h
+
+/-- … every line gets exactly as many window results as it was split into … -/
+theorem regroup_lengths {γ : Type} (spans : List Nat) (xs : List γ) (h : spans.sum ≤ xs.length) :
+    (regroup spans xs).map List.length = spans :=
+  Merge.regroup_lengths' spans xs h
+
+/-- … namely its OWN ones: line `k` gets the results that start after the windows of the lines before it, and its
+transcription / logits are the stitching of exactly these parts (empty and blank-only parts included). -/
+theorem line_result (spans : List Nat) (parts : List (List α × List β)) (k : Nat) (hk : k < spans.length) :
+    (batchResults spans parts)[k]? = some (mergeAll ((parts.drop (spans.take k).sum).take (spans.getD k 0))) := by
+  simp [batchResults, Merge.regroup_get' spans parts k hk]
+
+example : batchResults [2, 1] [([1,2,3], [10,11,12]), ([3,4], [20,21]), ([9], [30])] =
+    [some ([1,2,3,4], [10,11,20,21]), some ([9], [30])] := by decide
+
 /-! Non-vacuity -/
 example : mergeAll [([1,2,3,4,5], [10,11,12,13,14]), ([4,5,6], [20,21,22])] = some ([1,2,3,4,5,6], [10,11,12,13,21,22]) := by decide
 example : mergeAll [([1,2,3], [10,11,12]), ([7,8,9], [20,21,22])] = some ([1,2,3,7,8,9], [10,11,12,20,21,22]) := by decide
